@@ -87,6 +87,7 @@ type FuncVC struct {
 	forallStack     []bool
 	closureDone     map[string]bool
 	loopRemap       map[int]int // code loop ordinal -> contract loop ordinal (retry after a shift)
+	helperLoops     map[string]int // "<callee key>#<loop ordinal>" -> contract loop ordinal of the function under verification (a loop extracted into an inlined helper)
 	nRetCover       int
 	pureEnsDepth    int
 	binderDepth     int // >0 while evaluating under a quantifier: no facts may be emitted (they would mention bound variables)
@@ -691,7 +692,22 @@ func (fv *FuncVC) specOrdinal(fr *Frame, li *loopInfo) int {
 	return li.ordinal
 }
 
+// helperLoopSpec: the `loop n` block of the function under verification that was assigned to this loop of an inlined,
+// contract-less helper by the retry after an "extract method" edit
+func (fv *FuncVC) helperLoopSpec(fr *Frame, li *loopInfo) *LoopSpec {
+	if fv.helperLoops == nil || fr.fn == fv.fn || fv.con == nil {
+		return nil
+	}
+	if n, ok := fv.helperLoops[fmt.Sprintf("%s#%d", funcKey(fr.fn), li.ordinal)]; ok {
+		return fv.con.Loops[n]
+	}
+	return nil
+}
+
 func (fv *FuncVC) loopSpec(fr *Frame, li *loopInfo) *LoopSpec {
+	if ls := fv.helperLoopSpec(fr, li); ls != nil {
+		return ls
+	}
 	ord := fv.specOrdinal(fr, li)
 	if fr.con != nil {
 		if ls, ok := fr.con.Loops[ord]; ok {
